@@ -514,7 +514,8 @@ def format_facts(ctx):
         'random_bytes': _entropy_bytes(ctx, ff),
         'suffix': [n.value for n in ast.walk(ff.node) if isinstance(n, ast.Constant) and isinstance(n.value, str)
                    and n.value.startswith('.')][:1],
-        'slices': sorted(ast.unparse(n.slice) for n in ast.walk(ff.node) if isinstance(n, ast.Subscript)),
+        'slices': sorted(ast.unparse(n.slice) for n in ast.walk(ff.node) if isinstance(n, ast.Subscript)
+                         and isinstance(n.slice, ast.Slice)),
         'relative': _filename_relative(ctx),
     }
     # pickle of keys optimized; JSONDisk recipe
